@@ -260,3 +260,15 @@ Definition spec_choice_gen (calls : list (str * str)) (environ prefixes : list s
 (* every environment entry has the form NAME=VALUE (the domain of the unrepaired loop) *)
 Definition env_well_formed (environ : list str) : bool :=
   forallb (fun e => match snd (cut_eq e) with Some _ => true | None => false end) environ.
+
+(* ---- several Loads in one process ----
+   config.Load(args, environ) reads its arguments, the file named by -cfg and the
+   package-level defaults, which it must not modify: it keeps no state between calls.  A
+   process that loads inputs i1 .. in therefore obtains [load i1 .. load in], where [load]
+   is the function a fresh process computes; in particular results already returned are
+   what they were.  ([load] is a section variable: whatever a single Load computes.) *)
+Section LoadHistory.
+  Variables (input result : Type) (load : input -> result).
+  Definition load_history (inputs : list input) : list result := map load inputs.
+End LoadHistory.
+Arguments load_history {input result} load inputs.
